@@ -758,16 +758,11 @@ class Fetcher:
         else:
             title_to_authors = api.get_contributors([title])
 
-        # Process the results for each title
+        # Process the results for each title the wiki answered for (a looked-up
+        # title that is a redirect comes back under its target)
         authors_dict = {}
         title: str
-        for title in self.titles_pending_contributor_lookup[api]:
-            # Skip if the title is not in the results (e.g., if it was redirected)
-            if title not in title_to_authors:
-                continue
-
-            # Get the InspectAuthors object for this title
-            inspect_authors = title_to_authors[title]
+        for title, inspect_authors in title_to_authors.items():
 
             # Get the authors for this title
             authors = inspect_authors.get_authors()
